@@ -53,7 +53,7 @@ def main():
                                     'expected': ansatz(p, d, pth, nu, A, B, C), 'expected_x': (p - pth) * d ** nu})
     nplant = 4 if tier == 'quick' else 30
     dsets = [[5, 9, 13], [4, 6, 8], [3, 5, 7], [6, 10, 14], [9, 13, 17, 21], [4, 8, 12]]
-    for pi in range(nplant + 1):
+    for pi in range(nplant + 2):
         pth = rng.choice([0.06, 0.08, 0.1, 0.12, 0.15])
         nu = rng.choice([0.8, 1.0, 1.2])
         A = rng.choice([0.3, 0.35, 0.4])
@@ -66,6 +66,11 @@ def main():
         rates = [round(pth + width * (lo + (1.0 - lo) * i / (nr - 1)), 6) for i in range(nr)]
         n_trials = 8000
         zero_point = pi == nplant
+        if pi == nplant + 1:
+            # a shallow curve with moderate statistics: some bootstrap refits may not converge
+            pth, nu, A, B, C, ds = 0.10, 0.6, 0.3, 0.5, 0.5, [6, 8, 10]
+            rates = [round(0.08 + 0.04 * i / 6, 6) for i in range(7)]
+            n_trials = 5000
         if zero_point:
             # a data point with NO observed failure that still lies on the ansatz: the parabola touches zero (A = B^2/4C) at
             # x = -B/2C, reached at the largest distance and the lowest rate
@@ -81,7 +86,8 @@ def main():
                 entries.append((make_inputs(d, p), f, [0.1, 0.35, 0.6, 0.2][di % 4]))
         if not ok:
             continue
-        plant = {'p_th': pth, 'nu': nu, 'A': A, 'B': B, 'C': C, 'distances': ds, 'rates': rates, 'n_trials': n_trials, 'orders': []}
+        plant = {'p_th': pth, 'nu': nu, 'A': A, 'B': B, 'C': C, 'distances': ds, 'rates': rates, 'n_trials': n_trials, 'orders': [],
+                 'shallow': pi == nplant + 1}
         for oi, order in enumerate(['sorted', 'shuffled_files', 'paths_list', 'paths_list_reversed']):
             with tempfile.TemporaryDirectory() as tmp:
                 es = [entry(inp, f, n_trials, random.Random(seed * 1000 + pi), sh)[0] for inp, f, sh in entries]
